@@ -106,6 +106,10 @@ class Crate:
         return rc == 0, out, secs
 
 
+# harness name -> extra CBMC options (the `// @cbmc <options>` annotation of a harness)
+EXTRA_CBMC_ARGS = {}
+
+
 def run_harness(crate, harness, timeout_s, mem_gb, outdir, playback=False, slot=None):
     os.makedirs(outdir, exist_ok=True)
     tag = hashlib.sha1(harness.encode()).hexdigest()[:10]
@@ -116,6 +120,9 @@ def run_harness(crate, harness, timeout_s, mem_gb, outdir, playback=False, slot=
         crate.base_cmd(slot), harness, jpath)
     if playback:
         cmd += " -Z concrete-playback --concrete-playback=print"
+    if EXTRA_CBMC_ARGS.get(harness):
+        # (must come last: kani hands everything after --cbmc-args to CBMC)
+        cmd += " --cbmc-args " + EXTRA_CBMC_ARGS[harness]
     rc, out, secs, to = sh(cmd, cwd=crate.path, env=crate.kani_env(), timeout=timeout_s,
                            mem_gb=mem_gb)
     res = {"harness": harness, "crate": crate.name, "rc": rc, "secs": round(secs, 2),
